@@ -349,6 +349,21 @@ def check_definition(ctx, r, idx):
 			ctx.violation("decode", dict(w, decoded = res[1], consumed = res[2], length = len(enc)),
 				what = "decoding the encoding does not return the values / consumes %d of %d octets" % (res[2], len(enc)))
 			return
+		# decoded out of a buffer that is re-used afterwards: the decoded values must be the message's own
+		buf = bytearray(enc)
+		try:
+			used2 = dec_inst.from_bytes(buf)
+			for k in range(len(buf)):
+				buf[k] = 0xa5
+			after = norm(dec_inst.c)
+		except Exception as e:
+			ctx.violation("decode", dict(w, octets = enc[:40].hex()), what = "decoding from a bytearray that is re-used afterwards: %s" % type(e).__name__)
+			return
+		ctx.count("decoded_from_reused_buffer")
+		if after != res[1] or used2 != res[2]:
+			ctx.violation("decode", dict(w, decoded = res[1], after_reuse = after),
+				what = "decoded values change when the input buffer is re-used (they alias the caller's buffer)")
+			return
 		# canonical re-encoding of the decoded message
 		try:
 			again = bytes(dec_inst.to_bytes())
